@@ -103,8 +103,11 @@ Lemma before_F4_chr_leaks :
 Proof. split; vm_compute; reflexivity. Qed.
 
 (* ---------------------------------------------------------------- the funnel *)
+Definition handled_in_parser (x : pyexc) : bool :=
+  match x with XParse | XRecursion | XUnicodeDecode => true | _ => false end.
+
 Lemma funnel_invalid : forall st x,
-  fst (surfaced st x) = OInvalid <-> x = XInvalid \/ (x = XParse /\ st <> SVisit).
+  fst (surfaced st x) = OInvalid <-> x = XInvalid \/ (handled_in_parser x = true /\ st <> SVisit).
 Proof.
   intros st x. destruct st; destruct x; cbn; split; intros H; try discriminate; try tauto.
   all: try (right; split; [reflexivity|discriminate]).
@@ -115,7 +118,7 @@ Lemma funnel_other : forall st x, fst (surfaced st x) = OOther <-> x = XMemoryOr
 Proof. intros st x. destruct st; destruct x; cbn; split; intros H; try discriminate; try reflexivity. Qed.
 
 Lemma funnel_internal : forall st x,
-  fst (surfaced st x) = OInternal <-> x <> XInvalid /\ x <> XMemoryOrSystem /\ (x = XParse -> st = SVisit).
+  fst (surfaced st x) = OInternal <-> x <> XInvalid /\ x <> XMemoryOrSystem /\ (handled_in_parser x = true -> st = SVisit).
 Proof.
   intros st x. destruct st; destruct x; cbn; split; intros H; try discriminate; try reflexivity.
   all: try (repeat split; try discriminate; try reflexivity; intros; discriminate).
@@ -128,7 +131,8 @@ Proof. intros st x. destruct st; destruct x; cbn; intros H; try reflexivity; exf
 
 Lemma outside_parser : forall x,
   surfaced_outside_parser x =
-  if is_error x then (outcome_of x, true) else match x with XMemoryOrSystem => (OOther, false) | _ => (OInternal, true) end.
+  if is_error x then (outcome_of x, true)
+  else match x with XUnicodeDecode => (OInvalid, true) | XMemoryOrSystem => (OOther, false) | _ => (OInternal, true) end.
 Proof. intros x. destruct x; reflexivity. Qed.
 
 (* ---------------------------------------------------------------- expressions *)
@@ -145,11 +149,17 @@ Qed.
 Lemma rejection_surfaces : forall st, surfaced st XInvalid = (OInvalid, true).
 Proof. destruct st; reflexivity. Qed.
 
-(* what the funnel does with the failure modes of layers that are NOT modelled (the PEG engine's recursion, the file
-   system): they become InternalError - this is how the open findings of C13 arise *)
-Lemma unmodelled_leaks :
-  surfaced SGrammar XRecursion = (OInternal, true)
-  /\ surfaced SVisit XRecursion = (OInternal, true)
+(* failure modes of layers that are NOT modelled (the PEG engine's recursion, the file system, the symbolic layout
+   layer): repaired ones surface as invalid definitions; what remains unhandled *)
+Lemma repaired_leaks :
+  surfaced SGrammar XRecursion = (OInvalid, true)
+  /\ surfaced SFlush XRecursion = (OInvalid, true)
+  /\ surfaced_outside_parser XUnicodeDecode = (OInvalid, true).
+Proof. repeat split. Qed.
+
+Lemma remaining_leaks :
+  surfaced SVisit XRecursion = (OInternal, true)
   /\ surfaced_outside_parser XOSError = (OInternal, true)
-  /\ surfaced_outside_parser XUnicodeDecode = (OInternal, true).
+  /\ surfaced_outside_parser XRecursion = (OInternal, true)
+  /\ surfaced_outside_funnel XRecursion = (OOther, false).
 Proof. repeat split. Qed.
